@@ -32,6 +32,10 @@ def gen_probe_project(rng, binp, tries=40, opts=None):
     o = dict(probe_opts())
     o.update(opts or {})
     for _ in range(tries):
+        if "locales" not in (opts or {}):
+            # three locales whose number / date / list formats and plural rules differ, one inheriting from another non-default one
+            o["locales"] = rng.shuffle([rng.pick(["en", "en-US"]), rng.pick(["fr", "de", "ru", "pl"]), rng.pick(["fr-CA", "ar", "es", "pt-BR", "cy", "ja"])])
+            o["chain"] = True
         proj.FORCE_FALLBACK = True
         try:
             p = proj.gen_project(rng, o)
@@ -52,11 +56,26 @@ def gen_probe_project(rng, binp, tries=40, opts=None):
                 for f in ("one", "two", "few", "many", "other"):
                     tree["o"].append([f"nth_ordinal_{f}", f"O-{f}-{l}:{{{{ count }}}}"])
                     tree["o"].append([f"amount_{f}", f"C-{f}-{l}:{{{{ count }}}}"])
-        # formatters need typed values: strip them from the probe sources
+        # formatted keys in every project: plain, inside a component, inside a plural, in a group; absent or null in some non-default
+        # locales so that an inherited text is formatted for the locale being rendered
+        if o.get("formatted_keys", True):
+            for (ns, l), tree in p["files"].items():
+                def put(k, v, tree=tree, l=l):
+                    r = rng.below(6) if l != p["default"] else 9
+                    if r == 0:
+                        return
+                    tree["o"].append([k, None if r == 1 else v])
+                put("fmtnum", f"[{l}] n={{{{ num, number }}}}")
+                put("fmtnum2", f"[{l}] r={{{{ num, number(grouping_strategy: never) }}}} <b>{{{{ num, number(grouping_strategy: min2) }}}}</b> {{{{ num }}}}")
+                put("fmtcur", f"[{l}] {{{{ amount, currency(currency_code: EUR) }}}} / {{{{ amount, currency(width: narrow; currency_code: USD) }}}}")
+                put("fmtdate", f"[{l}] {{{{ d, date(date_length: long) }}}} {{{{ d, date }}}}")
+                put("fmtlist", f"[{l}] {{{{ items, list(list_type: or) }}}} | {{{{ items, list(list_style: short) }}}}")
+                put("fmtgroup", proj.O([("inner", f"[{l}] in-group {{{{ num, number(grouping_strategy: always) }}}}")]))
+                if rng.chance(2, 3) or l == p["default"]:
+                    tree["o"].append(["fmtpl_one", f"[{l}] one: {{{{ num, number }}}}"])
+                    tree["o"].append(["fmtpl_other", f"[{l}] {{{{ count }}}} x {{{{ num, number }}}}"])
         q = proj.harness_req(p)
         q["operands"] = sorted(set(q["operands"]) | {f"u:{n}" for n in range(0, 13)} | {"u:21", "u:100", "i:-1", "f:1.5"})
-        if ", " in json.dumps(q["files"]) and re.search(r"\{\{[^}]*,", json.dumps(q["files"])):
-            continue
         r, crash = run_lines(binp, [q])
         if crash or not r or "ok" not in r[0].get("result", {}):
             continue
@@ -85,6 +104,28 @@ def count_display(lit):
     return str(float(v))
 
 
+NUMS = [("7.0f64", "7"), ("2000.5f64", "2000.5"), ("-12345.25f64", "-12345.25")]
+ICU = "leptos_i18n::reexports::icu::calendar::"
+
+
+def typed_value(fams, fmts, a):
+    """(Rust expression, Display text) of a value accepted by every formatter the variable is used with, or None"""
+    plain = any(f["f"] == "none" for f in fmts)
+    if fams <= {"number", "currency"}:
+        return NUMS[a % 3]
+    if plain:
+        return None                      # dates / lists are not Display
+    if fams == {"date"}:
+        return (ICU + "Date::try_new_iso_date(%d, %d, %d).unwrap().to_any()" % [(1970, 1, 2), (2024, 2, 29), (1999, 12, 31)][a % 3], "")
+    if fams == {"list"}:
+        return (["[\"A\", \"B\", \"C\"]", "[\"x\", \"y\"]", "[\"solo\"]"][a % 3], "")
+    if fams == {"time"} and all(f.get("t") in ("medium", "short") for f in fmts):
+        return (ICU + "Time::try_new(%d, %d, %d, 0).unwrap()" % [(14, 34, 28), (0, 0, 0), (23, 59, 59)][a % 3], "")
+    if fams == {"datetime"} and all(f.get("t") in ("medium", "short") for f in fmts):
+        return (ICU + "DateTime::new(" + ICU + "Date::try_new_iso_date(1970, 1, 2).unwrap().to_any(), " + ICU + "Time::try_new(14, 34, 28, 0).unwrap())", "")
+    return None
+
+
 def build_probes(rng, p, res, oracle, per_key=3, flavours=("string", "display", "view")):
     """list of probes: dict(id, locale, ns, path, flavour, expr, expected)"""
     cats = {(l, r, k): f for l, r, k, f in oracle["cat"]}
@@ -102,7 +143,7 @@ def build_probes(rng, p, res, oracle, per_key=3, flavours=("string", "display", 
                     continue
                 for a in range(per_key):
                     args_rs, var_vals, comp_tags, count_of = [], {}, {}, {}
-                    ok = True
+                    ok, formatted = True, False
                     if "interpol" in val:
                         for name, info in val["interpol"]["vars"]:
                             short = name[len("var_"):]
@@ -112,8 +153,16 @@ def build_probes(rng, p, res, oracle, per_key=3, flavours=("string", "display", 
                                 var_vals[name] = count_display(lit)
                                 args_rs.append((rust_ident(short), lit, True))
                             else:
-                                if any(f["f"] != "none" for f in info["fmts"]):
-                                    ok = False
+                                fams = {f["f"] for f in info["fmts"]} - {"none"}
+                                if fams:
+                                    tv = typed_value(fams, info["fmts"], a)
+                                    if tv is None:
+                                        ok = False
+                                    else:
+                                        formatted = True
+                                        var_vals[name] = tv[1]
+                                        args_rs.append((rust_ident(short), tv[0], True))
+                                    continue
                                 txt = f"V{a}{short}"
                                 var_vals[name] = txt
                                 args_rs.append((rust_ident(short), rust_str(txt), False))
@@ -182,7 +231,8 @@ def build_probes(rng, p, res, oracle, per_key=3, flavours=("string", "display", 
                         else:
                             expr = f"render(td!({allargs}))"
                         probes.append({"id": len(probes), "locale": l, "effective": eff, "ns": ns, "path": list(path), "flavour": fl,
-                                       "expr": expr, "expected": pv_eval(env_for(fl), v), "group": (l, ns, tuple(path), a)})
+                                       "expr": expr, "expected": None if formatted else pv_eval(env_for(fl), v), "group": (l, ns, tuple(path), a),
+                                       "formatted": formatted})
     return probes
 
 
@@ -295,6 +345,12 @@ def run_render_probe(ctx, rng, n_crates=1, flavours=("string", "display", "view"
                 report_violation(ctx, sig_prefix + ":probe-missing-output", {"probe": pr["expr"], "files": q["files"], "stderr": err[-800:]})
                 continue
             exp = pr["expected"]
+            if exp is None:
+                # formatted values: ICU's text is not recomputed here; every flavour must give the same text (below)
+                ctx.count("probe:formatted")
+                groups.setdefault(pr["group"], {})[pr["flavour"]] = normalise_view(o) if pr["flavour"] == "view" else o
+                ctx.seen({"expr": pr["expr"], "files": q["files"][0][1][:200]}, nontrivial=True)
+                continue
             if pr["flavour"] == "view":
                 # leptos renders an empty text node as a single space during SSR: compare modulo U+0020
                 o = normalise_view(o).replace(" ", "")
@@ -307,11 +363,13 @@ def run_render_probe(ctx, rng, n_crates=1, flavours=("string", "display", "view"
                     "probe": pr["expr"], "locale": pr["locale"], "effective_locale": pr["effective"], "key_path": pr["path"],
                     "expected_by_spec": pr["expected"], "implementation": o, "cargo_toml": q["cargo_toml"], "files": q["files"],
                     "harness": "probe crate (load_locales! compiled by rustc)"})
-        if check_groups:
-            for g, d in groups.items():
+        formatted_groups = {pr["group"] for pr in probes if pr.get("formatted")}
+        for g, d in groups.items():
+            if check_groups or g in formatted_groups:
                 exact = {k: v for k, v in d.items() if k != "view"}
                 if len(set(exact.values())) > 1 or len({v.replace(" ", "") for v in d.values()}) > 1:
                     report_violation(ctx, sig_prefix + ":flavours-disagree", {"key": str(g), "outputs": d, "files": q["files"]})
+                    break
         if probes:
             ctx.sample({"probe": probes[0]["expr"], "expected": probes[0]["expected"], "got": got.get(probes[0]["id"])})
         shutil.rmtree(dirp, ignore_errors=True)
